@@ -309,3 +309,7 @@ async fn process_api_call(worterbuch: &mut Worterbuch, function: WbFunction) {
         }
     }
 }
+
+#[cfg(feature = "verif")]
+#[path = "../verif/follower_hooks.rs"]
+pub(crate) mod verif_hooks;
